@@ -133,7 +133,7 @@ def build_term(fl, t, engine=None):
     if k == "Linear":
         return fl.Linear(t["name"], list(t["params"]), engine)
     if k == "Function":
-        return fl.Function(t["name"], t["formula"], engine)
+        return fl.Function(t["name"], t["formula"], engine, variables=t.get("variables") or None)
     if k == "Discrete":
         return fl.Discrete(t["name"], fl.Discrete.to_xy(t["params"][0::2], t["params"][1::2]), t["height"])
     return getattr(fl, k)(t["name"], *t["params"], t["height"])
